@@ -718,8 +718,8 @@ func runC10(ctx *Ctx) {
 				combos := (1 << (4 * np)) * len(varBits)
 				total := combos * len(ll)
 				sample := 0
-				if total > ctx.N(30000, 400000) {
-					sample = ctx.N(30000, 400000) / combos
+				if total > ctx.N(20000, 400000) {
+					sample = ctx.N(20000, 400000) / combos
 					if sample < 2 {
 						sample = 2
 					}
